@@ -137,7 +137,11 @@ func (g *Gen) Next(st *State) Ev {
 	case r < 0.84:
 		return g.withdraw(st)
 	case r < 0.86:
-		return Ev{Name: "SetWithdrawAddr", Signer: g.pick(g.Owners), Addr: g.pick([]string{"w1", "c1", "o1", "o2"})}
+		signer := g.pick(g.Owners)
+		if len(st.POwner) > 0 && g.chance(0.5) {
+			signer = st.POwner[g.R.Intn(len(st.POwner))].O
+		}
+		return Ev{Name: "SetWithdrawAddr", Signer: signer, Addr: g.pick([]string{"w1", "c1", "o1", "o2"})}
 	case r < 0.90:
 		return Ev{Name: "BankSend", Signer: g.pick(g.All), To: g.pick(g.All), Amount: g.in(1, 2, 5, 20)}
 	case r < 0.95:
@@ -160,7 +164,11 @@ func (g *Gen) bind(st *State) Ev {
 	if g.chance(0.1) {
 		dep = md - 1
 	}
-	return Ev{Name: "Bind", Signer: g.pick(g.Owners), Svc: svc, Prov: g.pick(g.Provs), Deposit: dep, DShape: "ok",
+	owner, prov := g.pick(g.Owners), g.pick(g.Provs)
+	if g.chance(0.12) {
+		owner = prov // a provider that is its own owner
+	}
+	return Ev{Name: "Bind", Signer: owner, Svc: svc, Prov: prov, Deposit: dep, DShape: "ok",
 		Pr: pr, Qos: g.in(1, 1, 2, 3, st.Params.MaxTimeout, st.Params.MaxTimeout+1)}
 }
 
@@ -322,6 +330,9 @@ func (g *Gen) bindingOp(st *State) Ev {
 
 func (g *Gen) withdraw(st *State) Ev {
 	e := Ev{Name: "Withdraw", Signer: g.pick(g.Owners)}
+	if len(st.OEarned) > 0 && g.chance(0.7) {
+		e.Signer = st.OEarned[g.R.Intn(len(st.OEarned))].K
+	}
 	if len(st.Earned) > 0 && g.chance(0.6) {
 		f := st.Earned[g.R.Intn(len(st.Earned))]
 		e.Prov = f.K
